@@ -491,3 +491,18 @@ def c35_self_link(viol, inp, param):
     if viol["aspect"] not in ("link-to-the-board-itself-kept", "link-to-the-board-itself-present-in-the-output"):
         return False
     return len(json.loads(viol["detail"])[0]) >= 4
+
+
+# ---- C12: a label-field glob on connections beats the own label of a connection created later -------
+_EALPHA = None
+
+
+@classifier("c12_connection_label_glob_beats_own_label")
+def c12_edge_label_glob(viol, inp, param):
+    global _EALPHA
+    if viol["aspect"] != "connection-label-is-not-the-last-assignment":
+        return False
+    if _EALPHA is None:
+        _EALPHA = json.load(open(_os.path.join(_os.path.dirname(_os.path.dirname(_os.path.abspath(__file__))), "specs", "ir_alphabet_edgeglob.json")))
+    decls = [_EALPHA["decls"][i - 1] for i in inp["prog"]]
+    return any(d["k"] == "eglob" and d["a"] == "label" for d in decls) and any(d["k"] in ("edge", "gedge") and d.get("v", "") != "" for d in decls)
